@@ -16,7 +16,7 @@ META = {
                   "unsupported": "every public attribute of h5py.Group outside the protocol"},
         "thorough": {"listing": "|f| <= 2"},
     },
-    "outside": ["clause (d) 'bookkeeping never disturbs user data' (needs the TOC stack: see C06)", "free parts of names longer than stated"],
+    "outside": ["clause (d) beyond sequences of 2 container actions (3 via C06)", "free parts of names longer than stated"],
     "stubs": ["numpy.cumproduct import shim", "recording raw group/dataset objects (association lists) instead of h5py nodes", "container object None (not needed by guards/filters)"],
     "assumptions": ["CrossHair/z3 string theory models str.startswith/find/split faithfully"],
 }
@@ -36,10 +36,18 @@ def plan(tier, seed):
     for pre, fam in itertools.product(range(6), range(7)):
         parts.append(Part(H, "internal", {"pre": pre, "fam": fam}, 300, 60, "is_internal_path <=> some segment starts with metador_"))
     parts.append(Part(H, "unsupported", {}, 120, 30, "h5py.Group attributes outside the protocol are refused"))
+    # clause (d): the bookkeeping never disturbs user data (container action sequences, C06 harness)
+    import vt.harness.cont as HK  # noqa
+    for first in range(len(HK.ACTIONS)):
+        parts.append(Part("vt.harness.cont", "seq", {"drv": "h5", "k": 2, "first": first}, 900, 300,
+                          "(d) user-visible tree == the same user operations on a plain tree; listings never show reserved nodes"))
     return parts
 
 
 def confirm(part, kwargs, native):
+    if part.module.endswith("cont"):
+        from vt.props import c06
+        return c06.confirm(part, kwargs, native)
     if part.func != "guard":
         return {"confirmed": True, "key": f"{part.func}:{json.dumps(part.sel, sort_keys=True)}",
                 "what": f"{part.func} sel={part.sel} {json.dumps(kwargs)} (real wrapper classes; recording raw object)"}
